@@ -24,6 +24,12 @@ import (
 
 type verifPanic struct{ n int }
 
+type verifErr struct{ n int }
+
+func (e *verifErr) Error() string { return fmt.Sprintf("verif error %d", e.n) }
+
+var lastSentinelPanic int
+
 type rpRecorder struct {
 	trace  []Sx
 	req    *http.Request
@@ -53,6 +59,9 @@ func (w *wrapW) Flush() { w.ResponseWriter.(http.Flusher).Flush() }
 var rpCur *rpRecorder
 
 func dvalSx(v any) Sx {
+	if v == http.ErrAbortHandler {
+		return L(A("p"), I(lastSentinelPanic))
+	}
 	switch x := v.(type) {
 	case int:
 		return L(A("n"), I(x))
@@ -63,6 +72,8 @@ func dvalSx(v any) Sx {
 		sort.Strings(c)
 		return L(A("l"), SL(c))
 	case verifPanic:
+		return L(A("p"), I(x.n))
+	case *verifErr:
 		return L(A("p"), I(x.n))
 	case runtime.Error:
 		if strings.Contains(x.Error(), "index out of range") {
@@ -113,7 +124,16 @@ func rpRunOp(c *rux.Context, op Sx) {
 	case "isab":
 		rec.trace = append(rec.trace, L(A("ab"), B(c.IsAborted())))
 	case "panic":
-		panic(verifPanic{op.List[1].Int()})
+		// the recovered value must come through unchanged whatever its kind: a struct, an error, net/http's sentinel
+		switch n := op.List[1].Int(); n % 4 {
+		case 1:
+			lastSentinelPanic = n
+			panic(http.ErrAbortHandler)
+		case 2:
+			panic(&verifErr{n})
+		default:
+			panic(verifPanic{n})
+		}
 	case "w":
 		var obs []Sx
 		wopRun(c, op.List[1], &obs)
